@@ -261,7 +261,29 @@ def mk_stubs():
             if k == 'bytes': continue
             dst[k] = v.copy() if isinstance(v, SymStr) else v
         return None
-    S['@llvm.memset.p0i8.i64'] = st_memset; S['@llvm.memcpy.p0i8.p0i8.i64'] = st_memcpy
+    def st_memmove(ex, d, s_, n, vol=None):
+        """memmove inside one abstract string: the tail starting at `s_` (terminator included) is moved down to `d`"""
+        if not (isinstance(d, Ptr) and isinstance(s_, Ptr) and d.region == s_.region and tuple(d.path[:-1]) == tuple(s_.path[:-1])):
+            return st_memcpy(ex, d, s_, n, vol)
+        od, os_ = d.path[-1], s_.path[-1]
+        whole = get_str(ex, Ptr(d.region, tuple(d.path[:-1]) + (0,))).norm()
+        first = whole.parts[0] if whole.parts else ''
+        if not (isinstance(od, int) and isinstance(os_, int) and isinstance(first, str) and od <= os_ <= len(first)):
+            raise Inconclusive('memmove: offsets into a symbolic part')
+        tail = SymStr([first[os_:]] + whole.parts[1:]).norm()
+        # the length must be strlen(tail) + 1 (the whole rest including the terminator)
+        ok = False
+        if isinstance(n, int): ok = tail.is_concrete() and n == len(tail.text()) + 1
+        else:
+            reg = ex.user.get('strlen_of', {})
+            def walk(t, depth=0):
+                if t.get_id() in reg and strid(reg[t.get_id()].copy().norm()) == strid(tail): return True
+                return depth < 4 and any(walk(c, depth + 1) for c in t.children())
+            ok = walk(n)
+        if not ok: raise Inconclusive('memmove: length is not the length of the moved tail')
+        set_str(ex, Ptr(d.region, tuple(d.path[:-1]) + (0,)), SymStr([first[:od]] + tail.parts))
+        return d
+    S['@llvm.memset.p0i8.i64'] = st_memset; S['@llvm.memcpy.p0i8.p0i8.i64'] = st_memcpy; S['@llvm.memmove.p0i8.p0i8.i64'] = st_memmove
     S['@fprintf'] = lambda ex, *a: (ev(ex, 'stderr'), 0)[1]
     S['@printf'] = lambda ex, *a: 0
     S['@fflush'] = lambda ex, *a: 0
